@@ -252,7 +252,9 @@ func (w *writer) Run(ctx context.Context, log messageLog) error {
 		case <-ctx.Done():
 			return nil
 		case routedMessage := <-w.queue:
-			if routedMessage.offset != 0 {
+			// jobs queued by Schedule carry a log offset and no packet; offset 0 is the
+			// first message a node ever stores and must be delivered like any other
+			if routedMessage.publish == nil {
 				started := time.Now()
 				p, err := log.Get(routedMessage.offset)
 				if err != nil {
